@@ -48,6 +48,8 @@ Mutants this was built against (scratch worktree /var/tmp/wt-C25 with the fixes 
   M10 _generate_all_revisions: initial (delayed) revisions dropped from the chain       -> oracle
   M11 _graph_view_revisions: stop rule 'with-merges' -> 'include'                       -> oracle
   M13 _filter_revisions_touching_path: `node[2] == 0` -> `node[2] <= 1` without merges  -> oracle
+  S1 (seeded by the coordinator) _filter_revisions_touching_path: merge stack popped one level instead of truncated
+     to the current depth -> oracle (enclosing_expected) on generated nested-merge motifs and the pinned corpus case
   H1 harmless: min() in _rebase_merge_depth replaced by a loop                          -> clean
   H2 equivalent: reverse_by_depth `val[2] == _depth` -> `<=` (all depths are >= _depth there,
      theorem rbd_core) -> clean
@@ -61,6 +63,7 @@ THEOREMS = [
     "rbd_total", "rbd_perm", "rbd_length", "rbd_depth0_reversed", "rebase_shape",
     "view_complete_once", "forward_is_rbd_of_reverse", "level1_is_lefthand", "levels_is_filter",
     "limit_is_prefix", "graph_view_sublist", "touching_contains_modified", "touching_members",
+    "pushStack_discipline",
 ]
 RULE = ("case = (history DAG with file contents, tip, one request); requests: pure view lists for reverse_by_depth / "
         "_rebase_merge_depth; per history sampled (start, end, direction, levels, limit, exclude_common_ancestry) for the "
@@ -193,14 +196,36 @@ def gen_fworld(rng, nmax):
         tip = n - 1
     else:
         tip = rng.randrange(n)
+    # motif: a side branch whose FIRST own commit is itself a merge (nested 2 or 3 deep), merged into the
+    # mainline: the merge-sorted view then drops two or more depth levels in one step
+    #     p --- M          M = merge(p, B), B = merge(p, C), C = commit on p   ->   M(0) B(1) C(2) p(0)
+    motif = []
+    if tip is not None and rng.random() < 0.55:
+        p = tip
+        depth = rng.choice([2, 2, 3])
+        inner = None
+        for _ in range(depth):
+            k = len(g)
+            g[k] = (p,) if inner is None else (p, inner)
+            motif.append(k)
+            inner = k
+        k = len(g)
+        g[k] = (p, inner)
+        motif.append(k)
+        tip = k
+        for _ in range(rng.choice([0, 0, 1, 2])):      # plain commits on top
+            k = len(g)
+            g[k] = (tip,)
+            tip = k
+        n = len(g)
+    # how often each file is touched by a plain commit: one busy file, one quiet file
+    probs = dict(zip(FILES, rng.sample([0.5, 0.25, 0.07], 3)))
     # file contents per node: content[i][f]
     content = {}
     for i in range(n):
         ps = [p for p in g[i] if p in g]
         if not g[i] or g[i][0] not in g:
             cur = {f: "%s@%d" % (f, i) for f in FILES}
-            if ps:       # left-most ghost cannot happen here (gen_graph appends ghosts); second root merged later
-                pass
         else:
             left = content[g[i][0]]
             cur = dict(left)
@@ -213,12 +238,34 @@ def gen_fworld(rng, nmax):
                         elif x < 0.80:
                             cur[f] = "%s@%d" % (f, i)     # resolve to something new
                         # else: keep this side's text
-            for f in FILES:
-                if rng.random() < (0.3 if len(ps) == 1 else 0.08):
+            if i in motif:
+                # the nested merges touch at most one file each
+                if rng.random() < 0.6:
+                    f = rng.choice(FILES)
                     cur[f] = "%s@%d" % (f, i)
+            else:
+                for f in FILES:
+                    if rng.random() < (probs[f] if len(ps) == 1 else probs[f] / 4):
+                        cur[f] = "%s@%d" % (f, i)
         content[i] = cur
     return dict(g={str(k): list(v) for k, v in g.items()}, tip=tip,
                 content={str(k): v for k, v in content.items()}, qseed=rng.randrange(1 << 30))
+
+
+def enclosing_expected(views, mod, include_merges):
+    """independent statement of _filter_revisions_touching_path on a merge-sorted view: a revision is listed
+    iff it modified the file or one of the revisions grouped under it (the following ones of greater depth)
+    did; without merges only the depth-0 ones"""
+    out = []
+    for i, v in enumerate(views):
+        keep = int(v[0]) in mod
+        j = i + 1
+        while not keep and j < len(views) and views[j][2] > v[2]:
+            keep = int(views[j][0]) in mod
+            j += 1
+        if keep and (include_merges or v[2] == 0):
+            out.append(v)
+    return out
 
 
 class FWorld:
@@ -470,6 +517,17 @@ def oracle(w, gi, facts, q, res, results, extra_run=None, sres=None):
             bad.append(("log from r%s without an end revision gives %s, with the tip as explicit end %s"
                         % (q[1], "an error" if res is None else fmt_views(res), fmt_views(res2)),
                         None))
+    if k == "filelog" and res is not None and not q[4]:
+        # the per-file-graph generator: exactly the view revisions that modified the file or merge one that did
+        _, path, d, lv, _ = q
+        tr = results.get(("touch", path, True))
+        view = results.get(("log", None, None, d, 0, 0, False))
+        if tr is not None and view is not None:
+            exp = enclosing_expected(view, set(tr[1]), lv != 1)
+            if [v[0] for v in res] != [v[0] for v in exp]:
+                bad.append(("per-file-graph log of %s (%s, levels=%d) lists %r; the revisions that modified it (%r) or "
+                            "merge such a revision are %r" % (path, "forward" if d == "f" else "reverse", lv,
+                                                              [v[0] for v in res], tr[1], [v[0] for v in exp]), None))
     if k == "filelog" and res is not None:
         _, path, d, lv, deltas = q
         cont = w["content"]
@@ -481,7 +539,7 @@ def oracle(w, gi, facts, q, res, results, extra_run=None, sres=None):
             if main_d != main_g:
                 bad.append(("log of %s (%s, levels=%d): mainline revisions by delta matching %r, by per-file graph %r"
                             % (path, "forward" if d == "f" else "reverse", lv, main_d, main_g),
-                            file_family(w, gi, facts, q, main_d, main_g)))
+                            file_family(w, gi, facts, q, main_d, main_g, results)))
         # every mainline revision that changed the file against its left parent is listed
         changed = []
         for a in lh:
@@ -493,14 +551,14 @@ def oracle(w, gi, facts, q, res, results, extra_run=None, sres=None):
         if missing:
             fam = None
             if deltas:
-                fam = file_family(w, gi, facts, q, [x for x in changed if x in listed], changed)
+                fam = file_family(w, gi, facts, q, [x for x in changed if x in listed], changed, results)
             bad.append(("log of %s (%s, levels=%d, %s) does not list the mainline revisions %r that changed it"
                         % (path, "forward" if d == "f" else "reverse", lv, "deltas" if deltas else "per-file graph", missing),
                         fam))
     return [b_ if isinstance(b_, tuple) else (b_, None) for b_ in bad]
 
 
-def file_family(w, gi, facts, q, got, expected):
+def file_family(w, gi, facts, q, got, expected, results=None):
     """family slug of a per-file log discrepancy, computed from the concrete case:
     `got` = mainline revisions listed by delta matching, `expected` = by the per-file graph / by content"""
     g = gi.g
@@ -519,7 +577,14 @@ def file_family(w, gi, facts, q, got, expected):
         # per-file graph has a node for it or for a revision it merged
         a = int(x)
         ps = [p for p in g[a] if p in g]
-        return len(ps) >= 2 and cont[str(a)][path] == cont[str(ps[0])][path]
+        if not (len(ps) >= 2 and cont[str(a)][path] == cont[str(ps[0])][path]):
+            return False
+        # ... and the real per-file graph has a node for it or for a revision it merged
+        tr = (results or {}).get(("touch", path, True))
+        if tr is None:
+            return False
+        mod = set(tr[1])
+        return a in mod or bool((gi.panc(a) - gi.panc(ps[0])) & mod)
 
     if all(keeps_this(x) for x in only_exp):
         return "perfile-graph-lists-merge-keeping-this-text"
@@ -557,7 +622,7 @@ def run_fworld(args):
     try:
         for q in qs:
             s, res = run_request(b, g, q)
-            if q[0] in ("log", "filelog"):
+            if q[0] in ("log", "filelog", "touch"):
                 results[q] = res
             extra = res if q[0] == "touch" else None
             if q[0] == "touch":
@@ -566,6 +631,10 @@ def run_fworld(args):
                     views, mod, l = res
                     if not q[2] and any(v[2] for v in l):
                         fails.append(("without merges a merged revision is listed for %s: %r" % (q[1], l), None))
+                    exp = enclosing_expected(views, set(mod), q[2])
+                    if l != exp:
+                        fails.append(("revisions touching %s (modified in %r): listed %r, but exactly %r modified it or "
+                                      "merge a revision that did" % (q[1], mod, [v[0] for v in l], [v[0] for v in exp]), None))
                     if inc_missing(q, views, mod, l):
                         fails.append(("a revision that modified %s is not in the filtered list: %r" % (q[1], inc_missing(q, views, mod, l)), None))
             else:
@@ -668,6 +737,7 @@ def replay(ctx, case):
         # the requests the oracle compares with
         base = [("log", None, None, d, lv, 0, False) for d in "rf" for lv in (0, 1, 2)]
         if q[0] == "filelog":
+            base.append(("touch", q[1], True))
             base.append(("filelog", q[1], q[2], q[3], not q[4]))
         for bq in base:
             results[bq] = run_request(b, g, bq)[1]
@@ -676,6 +746,11 @@ def replay(ctx, case):
             fails = []
             if res is not None and inc_missing(q, *res):
                 fails.append(("a revision that modified %s is not in the filtered list: %r" % (q[1], inc_missing(q, *res)), None))
+            if res is not None and res[0]:
+                exp = enclosing_expected(res[0], set(res[1]), q[2])
+                if res[2] != exp:
+                    fails.append(("revisions touching %s (modified in %r): listed %r, but exactly %r modified it or merge "
+                                  "a revision that did" % (q[1], res[1], [v[0] for v in res[2]], [v[0] for v in exp]), None))
         else:
             fails = oracle(w, gi, facts, q, res, results, extra_run=lambda qq: run_request(b, g, qq), sres=s)
     line = model_line(w, q, res if q[0] == "touch" else None)
